@@ -5,3 +5,4 @@ int verif_hasGoodTopBits(H3Index h) { return _hasGoodTopBits(h); }
 int verif_hasAny7UptoRes(H3Index h, int res) { return _hasAny7UptoRes(h, res); }
 int verif_hasAll7AfterRes(H3Index h, int res) { return _hasAll7AfterRes(h, res); }
 int verif_hasDeletedSubsequence(H3Index h, int bc) { return _hasDeletedSubsequence(h, bc); }
+int verif_validateChildPos(int64_t p, H3Index parent, int r) { return (int)validateChildPos(p, parent, r); }
